@@ -20,7 +20,7 @@ from tracecheck import TraceChecker
 
 TIERS = {"quick": dict(rw_runs=3, rw_ops=2500, readers=3, reload_runs=4, reload_recs=1500, rounds=40, max_reads=9000),
          "thorough": dict(rw_runs=60, rw_ops=2500, readers=4, reload_runs=30, reload_recs=12000, rounds=12, max_reads=12000)}
-HEAD = {"upfx", "ukey", "wpfx", "wkey", "load", "reload"}
+HEAD = {"upfx", "ukey", "wpfx", "wkey", "wsrc", "wsrck", "load", "reload"}
 
 
 def sort_trace(raw, dst, max_reads):
